@@ -8,7 +8,7 @@ MODEL_FN = 'Model/Pipe.v:pipe_step (whole-datagram steps), message count of the 
 RULE = ('workloads: a sequential prologue announcing templates (no redefinitions) and sampling rates for 4 exporter scopes '
         '(v9 and IPFIX, several domains), then 20..60 data-only v9/IPFIX messages, NetFlow v5 and sFlow datagrams processed by '
         '2, 3, 8, 16 or 32 goroutines calling DecodeFlow on one shared auto pipe assembled as cmd/goflow2 assembles it (Prometheus template system, Prometheus and panic wrappers) / producer / format / recording transport '
-        'with random yields, harness built with -race, once with an in-memory recording transport (bin format) and once with the JSON format and the real file transport; compared with a sequential run of the same datagrams on a fresh pipe: '
+        'with random yields, harness built with -race, once with an in-memory recording transport (bin format), once with the JSON format and the real file transport, and through the raw producer (-produce raw) with the JSON format incl. dense NetFlow v5 workloads (oracle: the sequential run); compared with a sequential run of the same datagrams on a fresh pipe: '
         'same number of Send calls as the model\'s sequential run, same multiset of payloads, and the messages of each datagram '
         '(recognised by its unique receive time) in the same order; the race detector must stay silent. '
         'non-trivial = a workload that produced at least 50 messages; distinct by input')
@@ -71,4 +71,33 @@ def run(chk):
             chk.record('scopeA', dict(concrete=True, input=a[:40000], impl=o, expected=e,
                        what='workers sharing the file transport wrote a different multiset of lines / per-datagram order than sequential processing'), {})
     chk.samples.append(dict(stream='file-transport', input=fins[0][:300], impl=fouts[0], expected=exp[0]))
+    # the RAW producer (cmd/goflow2 -produce raw): the decoded packet itself is what is formatted, after Produce returned.
+    # The generated workloads, and dense NetFlow v5 workloads (300 datagrams with distinct records from 4 exporters, 16
+    # workers), JSON format; oracle = the sequential run of the same datagrams (the property's own formulation)
+    rins = ['parraw' + a[3:] for a in ins[:dict(quick=12, thorough=200)[chk.tier]]]
+    import random as _r
+    rng = _r.Random(chk.seed * 31 + 15)
+    for _ in range(dict(quick=6, thorough=60)[chk.tier]):
+        q = []
+        for i in range(300):
+            k = rng.randrange(1, 31)
+            hdr = (5).to_bytes(2, 'big') + k.to_bytes(2, 'big') + rng.randrange(2 ** 32).to_bytes(4, 'big') + bytes(16)
+            d = hdr + b''.join(bytes([rng.randrange(256)]) * 48 for _ in range(k))
+            q += ['=0a0000%02x' % (1 + i % 4), '#7d0', '#%x' % (i + 1), '=' + d.hex()]
+        rins.append('parraw #10 none #0 ' + ' '.join(q))
+    p3 = subprocess.run([chk.harness, 'run'], input=('\n'.join(rins) + '\n').encode(), stdout=subprocess.PIPE,
+                        stderr=subprocess.PIPE, timeout=3000, env=env)
+    routs = p3.stdout.decode().split('\n')[:len(rins)]
+    err3 = p3.stderr.decode(errors='replace')
+    chk.evals += len(rins)
+    chk.count('workloads through the raw producer', len(rins))
+    if err3.count('WARNING: DATA RACE'):
+        chk.record('scopeA-race', dict(concrete=True, input=rins[-1][:20000], impl=err3[:6000],
+                   what='the Go race detector reported a data race (raw producer workloads)'), {})
+    for a, o in zip(rins, routs):
+        f = o.split(' ')
+        if not (len(f) == 4 and f[0] == 'units' and f[2] == 'diff' and f[3] == '#0' and f[1] != '#0'):
+            chk.record('scopeA', dict(concrete=True, input=a[:40000], impl=o, expected='units #n diff #0',
+                       what='workers sharing a pipe with the raw producer delivered a different multiset of payloads than sequential processing'), {})
+    chk.samples.append(dict(stream='raw-producer', input=rins[-1][:300], impl=routs[-1]))
     return chk.finish(me)
